@@ -2,6 +2,7 @@
    Only statements here; proofs are [exact <lemma of Net/Proofs2.v>]. *)
 From Coq Require Import List NArith ZArith Permutation.
 From SF Require Import Base.Str Net.Model Net.Util Net.Proofs Net.Proofs2.
+From SF Require Tags.Model Gather.Model Gather.Proofs Loop.Model Loop.Proofs Net.Contracts Net.ContractsComb.
 Import ListNotations.
 Local Open Scope string_scope. Local Open Scope list_scope.
 
@@ -56,6 +57,42 @@ Theorem C05_bags_determinate_partial :
     Permutation (hist W1 O1 p) (hist W2 O2 p).
 Proof. exact port_bags_agree. Qed.
 
+(* ---- order-insensitivity of the merge-style steps, from their own proved models (each in its model's token
+   type).  These are the instances of the hypothesis [insensitive] of C05_bags_determinate_partial that are
+   theorems; what is still ASSUMED there: the embedding of these models' arrival lists into Net.Model histories,
+   ExecuteStep with concurrent jobs, LoopCombinatorStep, dot products outside the flat / broadcast fragments of
+   C02, cartesian products with mixed depths or inner combinators (refuted in C02). *)
+Theorem C05_contract_gather :
+  forall (insts : list Gather.Proofs.inst) l1 l2 p1 p2 m1 m2 q1 q2,
+  Forall Gather.Proofs.inst_ok insts -> NoDup (map Gather.Proofs.ikey insts) ->
+  Permutation (l1 ++ l2) (Gather.Proofs.all_arrivals insts) -> p1 <> p2 ->
+  (forall a, In a l2 -> Gather.Model.port_of a <> p1) ->
+  Permutation (m1 ++ m2) (Gather.Proofs.all_arrivals insts) -> q1 <> q2 ->
+  (forall a, In a m2 -> Gather.Model.port_of a <> q1) ->
+  let s := Gather.Model.gather_run 1 (l1 ++ Gather.Model.OnTerm p1 Gather.Model.Completed :: l2 ++ [Gather.Model.OnTerm p2 Gather.Model.Completed]) in
+  let s' := Gather.Model.gather_run 1 (m1 ++ Gather.Model.OnTerm q1 Gather.Model.Completed :: m2 ++ [Gather.Model.OnTerm q2 Gather.Model.Completed]) in
+  Permutation (Gather.Model.gout (Gather.Model.gd s)) (Gather.Model.gout (Gather.Model.gd s')) /\
+  Gather.Model.gfinal s = Gather.Model.gfinal s'.
+Proof. exact Net.Contracts.gather_order_insensitive. Qed.
+
+Theorem C05_contract_loop_output :
+  forall (pol : Loop.Model.policy) (insts : list Gather.Proofs.inst) (arr1 arr2 : list Loop.Model.larr),
+  Forall Gather.Proofs.inst_ok insts -> NoDup (map Gather.Proofs.ikey insts) ->
+  Permutation arr1 (Loop.Proofs.all_larr insts) -> Permutation arr2 (Loop.Proofs.all_larr insts) ->
+  Permutation (Loop.Model.lout (Loop.Model.loop_run pol (arr1 ++ [Loop.Model.LTerm Gather.Model.Completed])))
+              (Loop.Model.lout (Loop.Model.loop_run pol (arr2 ++ [Loop.Model.LTerm Gather.Model.Completed]))) /\
+  Loop.Model.lfinal (Loop.Model.loop_run pol (arr1 ++ [Loop.Model.LTerm Gather.Model.Completed])) =
+  Loop.Model.lfinal (Loop.Model.loop_run pol (arr2 ++ [Loop.Model.LTerm Gather.Model.Completed])) /\
+  Loop.Model.lfinal (Loop.Model.loop_run pol (arr1 ++ [Loop.Model.LTerm Gather.Model.Completed])) <> None.
+Proof. exact Net.Contracts.loop_output_order_insensitive. Qed.
+
+(* combinators: the statements are Net.ContractsComb.dot_flat_contract_stmt / cartesian_contract_stmt (C02's
+   order-independence theorems for the flat dot product and the depth-d cartesian product, verbatim) *)
+Theorem C05_contract_dot_flat : Net.ContractsComb.dot_flat_contract_stmt.
+Proof. exact Net.ContractsComb.dot_flat_contract. Qed.
+Theorem C05_contract_cartesian : Net.ContractsComb.cartesian_contract_stmt.
+Proof. exact Net.ContractsComb.cartesian_contract. Qed.
+
 (* without the shape hypothesis a round-based step is sensitive to the ORDER of tokens inside a port: same bags
    in, different outputs (nothing versus 0.1 |-> 12) *)
 Theorem C05_shape_needed_refuted :
@@ -78,3 +115,7 @@ Print Assumptions C05_maximal_executions_agree.
 Print Assumptions C05_outputs.
 Print Assumptions C05_bags_determinate_partial.
 Print Assumptions C05_shape_needed_refuted.
+Print Assumptions C05_contract_gather.
+Print Assumptions C05_contract_loop_output.
+Print Assumptions C05_contract_dot_flat.
+Print Assumptions C05_contract_cartesian.
